@@ -45,7 +45,7 @@ class Parser:
                 if filter == 'path':
                     tail = S.rest()
                     tmp = re.match(fr'[^{param_tokens}]+', tail)
-                    token_pos = tmp.end() if tmp else len(tail)
+                    token_pos = tmp.end() if tmp else 0
                     filter_args = tail[: token_pos]
             # static logic
             else:
